@@ -26,7 +26,10 @@ def _(u):
     gen = u.obj(MTG, "MTVRPGenerator", max_time=M)
     # customers do not coincide with the depot (the real code divides by the depot distance; a measure-zero event, A10)
     u.requires(u.forall((B, N), lambda b, i: OR(locs.at(b, 0, 0) != locs.at(b, i + 1, 0), locs.at(b, 0, 1) != locs.at(b, i + 1, 1))))
-    tw, st = u.run(MTG, "MTVRPGenerator.generate_time_windows", locs, speed, selfobj=gen)
+    tw, st = u.run(MTG, "MTVRPGenerator.generate_time_windows", locs, speed, selfobj=gen, record=False)
+    u.native("mtvrp.generate_time_windows")   # replay with torch.rand patched to return the witness draws
+    u.native_out("time_windows", tw)
+    u.native_out("service_time", st)
     b = u.idx((B,), "b")
     i = u.idx((N,), "i")
     same_tensor(u, "tw.shape", tw, (B, N + 1, 2), lambda *I: tw.at(*I))
@@ -49,3 +52,53 @@ def _(u):
     u.prove("tw.back-at-depot-in-time", IMPL(feas, arrive + s + tt <= M))
     u.prove("tw.window-not-before-arrival", IMPL(feas, lo >= tt))
     u.canary("tw.always-in-time-even-if-infeasible", arrive + s + tt <= M)
+
+
+CVG = "rl4co/envs/routing/cvrp/generator.py"
+
+
+def _sampler(u, name, lo, hi, dtype="f"):
+    """A sampler stub (assumed contract A10): sample(shape) returns an arbitrary tensor with entries in [lo, hi]."""
+    cnt = [0]
+    drawn = []
+
+    def sample(shape):
+        cnt[0] += 1
+        t = u.tensor(f"{name}{cnt[0]}", tuple(shape), dtype)
+        drawn.append(t)
+        ts = t.snap()
+        ops.assume_forall(tuple(shape), lambda I: z3.And(ts(I) >= lo, ts(I) <= hi))
+        return t
+
+    ns = u.ns(sample=sample)
+    ns.drawn = drawn
+    return ns
+
+
+@unit("cvrp.generator.generate", file=CVG, func="CVRPGenerator._generate", props=("C18",))
+def _(u):
+    B, N = u.dims("B N")
+    cap = u.scalar("capacity", "f")
+    dmin, dmax = u.scalar("min_demand", "i"), u.scalar("max_demand", "i")
+    lmin, lmax = u.scalar("min_loc", "f"), u.scalar("max_loc", "f")
+    u.requires(AND(dmin >= 1, dmin <= dmax, lmin <= lmax, cap > 0))
+    for variant in ("depot-from-locs", "depot-sampler"):
+        gen = u.obj(CVG, "CVRPGenerator", num_loc=N, capacity=cap, min_demand=dmin, max_demand=dmax,
+                    loc_sampler=_sampler(u, f"{variant}.loc", lmin, lmax),
+                    depot_sampler=_sampler(u, f"{variant}.depot", lmin, lmax) if variant == "depot-sampler" else None,
+                    demand_sampler=_sampler(u, f"{variant}.dem", z3.ToReal(dmin - 1), z3.ToReal(dmax - 1)))
+        td = u.run(CVG, "CVRPGenerator._generate", [B], selfobj=gen, record=False)
+        b, i, c = u.idx((B,), "b"), u.idx((N,), "i"), u.idx((2,), "c")
+        p = variant + "."
+        u.prove(p + "shapes", AND(tuple(td["locs"].shape) == (B, N, 2), tuple(td["depot"].shape) == (B, 2),
+                                  tuple(td["demand"].shape) == (B, N), tuple(td["capacity"].shape) == (B, 1), tuple(td.batch_size) == (B,)))
+        u.prove(p + "locs-in-range", AND(td["locs"].at(b, i, c) >= lmin, td["locs"].at(b, i, c) <= lmax,
+                                         td["depot"].at(b, c) >= lmin, td["depot"].at(b, c) <= lmax))
+        x = gen._attrs["demand_sampler"].drawn[0].at(b, i)          # the raw draw in [min_demand - 1, max_demand - 1]
+        k = z3.ToInt(x) + 1                                            # .int() truncates; the draw is non-negative, so truncation = floor
+        u.prove(p + "demand-integer-in-range", AND(td["demand"].at(b, i) == z3.ToReal(k) / cap, k >= dmin, k <= dmax))
+        u.prove(p + "capacity-recorded", td["capacity"].at(b, 0) == cap)
+        # every customer can be served by an empty vehicle iff the largest possible demand fits
+        u.prove(p + "single-customer-fits", IMPL(z3.ToReal(dmax) <= cap, td["demand"].at(b, i) <= 1))
+        u.prove(p + "demand-positive", td["demand"].at(b, i) > 0)
+        u.canary(p + "demand-at-most-one-unconditionally", td["demand"].at(b, i) <= 1)
